@@ -307,13 +307,13 @@ var failureCodes = []primitive.FailureCode{
 }
 
 var ipClasses = []net.IP{
-	{127, 0, 0, 1},                          // IPv4 held in 4 bytes
-	net.IPv4(192, 168, 1, 42),               // IPv4 held in 16 bytes
-	{0, 0, 0, 0},                            // 0.0.0.0
-	{255, 255, 255, 255},                    // broadcast
-	net.ParseIP("::1"),                      // IPv6 loopback
-	net.ParseIP("2001:db8::ff00:42:8329"),   // IPv6
-	net.ParseIP("fe80::1"),                  // link local
+	{127, 0, 0, 1},                                   // IPv4 held in 4 bytes
+	net.IPv4(192, 168, 1, 42),                        // IPv4 held in 16 bytes
+	{0, 0, 0, 0},                                     // 0.0.0.0
+	{255, 255, 255, 255},                             // broadcast
+	net.ParseIP("::1"),                               // IPv6 loopback
+	net.ParseIP("2001:db8::ff00:42:8329"),            // IPv6
+	net.ParseIP("fe80::1"),                           // link local
 	{0, 0, 0, 0, 0, 0, 0, 0, 0, 0, 0, 0, 0, 0, 0, 0}, // ::
 }
 
